@@ -25,6 +25,8 @@ json.dump(out, open('known_findings.json','w'), indent=1)
 PY
       git add known_findings.json
     fi
+    # lib/layerset.py discovers sub-checks by file name: ours is always right
+    if git diff --name-only --diff-filter=U | grep -qx lib/layerset.py; then git checkout --ours lib/layerset.py; git add lib/layerset.py; fi
     for f in $(git diff --name-only --diff-filter=U | grep '^evidence/'); do git checkout --ours "$f"; git add "$f"; done
     if [ -n "$(git diff --name-only --diff-filter=U)" ]; then echo "UNRESOLVED CONFLICTS (resolve, commit, then re-run this script to cherry-pick the gopacket commits; DO NOT delete the branches yet):"; git diff --name-only --diff-filter=U; exit 1; fi
     git commit --no-edit -q
